@@ -284,6 +284,13 @@ def c19_jobs(tier):
     # declarations with their attributes) and UBSan/ASan (typed or misaligned accesses at odd offsets are reported)
     jobs += grid_jobs('bits-outofline', 'harness/bits.cpp', src, 'quick', 1, defs=['-DA_HAVE_INLINE=0'], extra=['--light', 1])
     jobs += grid_jobs('bits-asan', 'harness/bits.cpp', src, 'quick', 1, san='asan', extra=['--light', 1])
+    # src/math.c as a compiler without count-leading-zeros builtins compiles it: the digit-by-digit square-root bodies (harness/math_nobsr.c
+    # includes the file with the feature tests switched off); the complete sweeps again
+    nob = grid_jobs('bits-nobsr', 'harness/bits.cpp', ['src/a.c'], tier, 16, extra=['--mathonly', 1])
+    for j in nob:
+        j['harness'] = ['harness/bits.cpp', 'harness/math_nobsr.c']
+        j['repo_included'] = ['src/math.c']
+    jobs += nob
     # the same sources with the header's inline bodies selected, and one sanitizer shard on a reduced sweep is not needed: the sweeps are pure integer code
     if tier == 'thorough':
         jobs += grid_jobs('bits-inline', 'harness/bits.cpp', src, tier, 16, defs=['-DA_HAVE_INLINE=1'])
@@ -465,6 +472,7 @@ def c16_jobs(tier):
     jobs = grid_jobs('filt-f64', 'harness/filt.cpp', src, tier, 16)
     jobs += grid_jobs('filt-f32', 'harness/filt.cpp', src, 'quick', 8, defs=['-DA_SIZE_REAL=4'])
     jobs += grid_jobs('filt-f64-asan', 'harness/filt.cpp', src, 'quick', 8, san='asan')
+    jobs += grid_jobs('filt-ld', 'harness/filt.cpp', src, 'quick', 4, defs=['-DA_SIZE_REAL=16'])  # long double reals: samples beyond double precision
     jobs += cxx_jobs('filt', src)
     return jobs
 
